@@ -2,6 +2,7 @@ import SJ.Properties.C12
 import SJ.Proofs.SourceLevelA
 import SJ.Proofs.SourceLevelD
 import SJ.Proofs.SourceLevelE
+import SJ.Proofs.SourceLevelF
 set_option linter.unusedVariables false
 /-
 C12 — source level. The theorems of Properties/C12.lean composed with the source ties of DESIGN §6.3: each statement
@@ -331,5 +332,63 @@ theorem C12_source_nextElement_walk (pj : PJ) (p e : Nat) (ms : LMems) (hok : Ok
     srcElements F pj.tape n e0 =
       some ((membersOf ms).map fun kv => (kv.1, tagToTypeSpec (tagOfL kv.2), some (elemIter pj kv.2))) :=
   SJ.SourceLevelE.C12_source_nextElement_walk pj p e ms hok ht hb d0 e0 hv hd hS hM F hF n hn
+
+open SJ.Generated SJ.GoSem SJ.GoIter SJ.GoSet SJ.Layout SJ.SourceLevelF SJ.Tables SJ.WalkLayout SJ.Lookup SJ.DeleteDoc SJ.GoObject SJ.GoDelete in
+/-- **`Object.ForEach(fn, onlyKeys)`, source level** (`C12_forEach` ∘ the `Object.ForEach` tie `GoDelete.objForEach_sim`, the
+    third clause of `C14_delete_code_follows_source`).  On a tape that holds the located object `.obj p e ms` (NOP gaps
+    anywhere), with no filter or with pairwise distinct member keys: running `Object.ForEach` of `parsed_object.go` (as printed
+    from /repo) on the object's view (`off = p+1`, `lim = e`, what `Iter.Object` returns) with the key set `ks` returns `nil`,
+    leaves the tape alone, and the log of what the callback was handed is exactly, in tape order, one entry
+    `(len(name), iterator)` per member whose key is in `ks` — every member when `ks` is empty — with the member's own key
+    bytes as `name` and the iterator standing on the member's own value (`skipIter pj e v`: one past the value's first word,
+    that word's tag and payload, the object's view, next `Advance` at the value's end; `OnNode`).  Nothing else is logged.
+    Discharged: the tie's view premise (`e ≤ len(tape)`: the closing brace is a word of the tape), the model fuel
+    (`fuelOf pj` is above `e - p`), the empty log and the parameter in the store.  Remaining: `BufOK pj` (both string buffers
+    shorter than 2^63 bytes, Go `int`: the keys are compared through `stringByteAt`; `Ok` does not bound the buffers), the
+    property's own premise `h` (for duplicate keys under a filter `ForEach` stops early: `Lookup.forEach_dup_discrepancy`),
+    the interpreter's loop budget `2·e + 7`. -/
+theorem C12_source_forEach (pj : PJ) (p e : Nat) (ms : LMems) (ks : List Bytes) (hok : Ok pj (.obj p e ms))
+    (h : ks = [] ∨ (memKeys ms).Nodup) (hb : BufOK pj) (fuel : Nat) (hf : 2 * e + 7 ≤ fuel) :
+    ∃ s, runFun goFuns goObject_ForEach fuel
+        ⟨objStore pj { lim := e, off := p + 1 } ks [("fn.log", .ints [])], pj.tape⟩ = .ret s [.bool false] ∧
+      s.tape = pj.tape ∧
+      GoDelete.logOf s.env = encNIs ((membersWithKeys ks ms).map (cbOf pj e)).toArray ∧
+      ∀ kv ∈ membersWithKeys ks ms, Ok pj kv.2 ∧ OnNode pj kv.2 (skipIter pj e kv.2) ∧
+        (skipIter pj e kv.2).t = tagOfL kv.2 :=
+  SJ.SourceLevelF.C12_source_forEach pj p e ms ks hok h hb fuel hf
+
+open SJ.Generated SJ.GoSem SJ.GoIter SJ.GoSet SJ.Layout SJ.SourceLevelF SJ.Tables SJ.WalkLayout SJ.Lookup SJ.DeleteDoc SJ.GoObject SJ.GoDelete in
+/-- **`Array.ForEach(fn)`, source level** (the `Array.ForEach` tie `GoDelete.arrForEach_sim`, second clause of
+    `C14_delete_code_follows_source`, ∘ the element walk of the model, `arrForEach_arr` above — the read-only half of the
+    walk behind `C14_array_delete`; there was no property theorem for `View.arrForEach`).  On a tape that holds the located
+    array `.arr p e es` (NOP gaps anywhere): running `Array.ForEach` of `parsed_array.go` (as printed from /repo) on the
+    array's view returns, leaves the tape alone, and the log shows that the callback was made exactly once per element, in
+    order, each time with an iterator standing on that element (`Stands`: one past the element's first word, holding that
+    word's tag and payload, the array's view, next `Advance` at the element's end).
+    Discharged: the view premise (`e ≤ len(tape)`), the model fuel, the empty log.  `BufOK` is not needed (no string is
+    read).  Remaining: the interpreter's loop budget `2·e + 6`. -/
+theorem C12_source_arrForEach (pj : PJ) (p e : Nat) (es : LVals) (hok : Ok pj (.arr p e es)) (fuel : Nat)
+    (hf : 2 * e + 6 ≤ fuel) :
+    ∃ s its, runFun goFuns goArray_ForEach fuel
+        ⟨arrStore pj { lim := e, off := p + 1 } [("fn.log", .ints [])], pj.tape⟩ = .ret s [] ∧
+      s.tape = pj.tape ∧ GoDelete.logOf s.env = GoDelete.encIters its ∧ its.size = lenVs es ∧
+      Stands pj e es its.toList :=
+  SJ.SourceLevelF.C12_source_arrForEach pj p e es hok fuel hf
+
+open SJ.Generated SJ.GoSem SJ.GoIter SJ.GoSet SJ.Layout SJ.SourceLevelF SJ.Tables SJ.WalkLayout SJ.Lookup SJ.DeleteDoc SJ.GoObject SJ.GoDelete in
+/-- **`Array.FirstType()`, source level** (the `Array.FirstType` tie `GoDelete.arrFirstType_sim`, first clause of
+    `C14_delete_code_follows_source`, ∘ `firstType_arr` above; there was no property theorem for `View.firstType`).  On a tape
+    that holds the located array `.arr p e es` (NOP gaps anywhere, also before the first element): running `Array.FirstType`
+    of `parsed_array.go` (as printed from /repo) on the array's view returns the `Type` of the first element's tag
+    (`tagToTypeSpec`, the table `C12_tag_types` identifies with `TagToType`), and `TypeNone` for the empty array; the tape is
+    untouched.
+    Discharged: the view premise (`e ≤ len(tape)`).  No `BufOK`.  Remaining: the interpreter's loop budget `e + 2` (one
+    unit per NOP word stepped over). -/
+theorem C12_source_firstType (pj : PJ) (p e : Nat) (es : LVals) (hok : Ok pj (.arr p e es)) (fuel : Nat)
+    (hf : e + 2 ≤ fuel) :
+    ∃ s, runFun goFuns goArray_FirstType fuel ⟨arrStore pj { lim := e, off := p + 1 } [], pj.tape⟩ =
+        .ret s [.u8 (match es with | .nil => typeNone | .cons v _ => tagToTypeSpec (tagOfL v))] ∧
+      s.tape = pj.tape :=
+  SJ.SourceLevelF.C12_source_firstType pj p e es hok fuel hf
 
 end SJ.Properties.C12
